@@ -248,6 +248,20 @@ impl<'a> Cx<'a> {
                         return Ok(Tx { pre: b.pre, term: format!("({}).{}", b.term, fname), ty });
                     }
                 }
+                if let (LT::Rec(_, fs), syn::Member::Named(fname)) = (&b.ty, &f.member) {
+                    let fname = fname.to_string();
+                    if let Some(k) = fs.iter().position(|(n, _)| *n == fname) {
+                        let n = fs.len();
+                        let mut term = b.term.clone();
+                        for _ in 0..k {
+                            term = format!("{}.2", term);
+                        }
+                        if k + 1 < n {
+                            term = format!("{}.1", term);
+                        }
+                        return Ok(Tx { pre: b.pre, term: format!("({})", term), ty: fs[k].1.clone() });
+                    }
+                }
                 if let (LT::Tup(ts), syn::Member::Unnamed(i)) = (&b.ty, &f.member) {
                     let k = i.index as usize;
                     if k < ts.len() {
@@ -462,6 +476,23 @@ impl<'a> Cx<'a> {
                         terms.push(tx.term);
                     }
                     return Ok(Tx { pre, term: format!("(Rs.Handler.mk {})", terms.join(" ")), ty: LT::Handler });
+                }
+                if let LT::Rec(_, fs) = self.conv(&Ty::path(&sn, vec![])) {
+                    let mut pre = Vec::new();
+                    let mut terms = Vec::new();
+                    for (fname, fty) in &fs {
+                        let fv = match st.fields.iter().find(|f| matches!(&f.member, syn::Member::Named(i) if i == fname)) {
+                            Some(f) => f,
+                            None => return self.un(format!("{} literal does not set `{}`", sn, fname)),
+                        };
+                        let tx = self.expr(&fv.expr, Some(fty))?;
+                        if tx.ty != *fty {
+                            return self.un(format!("{} field `{}`: modelled types differ", sn, fname));
+                        }
+                        pre.extend(tx.pre);
+                        terms.push(tx.term);
+                    }
+                    return Ok(Tx { pre, term: format!("({})", terms.join(", ")), ty: LT::Rec(sn.clone(), fs) });
                 }
                 let fields = self.scalar_fields(&sn);
                 if fields.is_empty() {
@@ -743,6 +774,13 @@ impl<'a> Cx<'a> {
                 Ok(Tx { pre, term: format!("({} + {})", recv.term, a.term), ty: LT::I("isize") })
             }
             ("len", 0, LT::List(_)) => Ok(Tx { pre: recv.pre, term: format!("(Rs.len {})", recv.term), ty: LT::I("usize") }),
+            ("iter", 0, LT::List(_)) => Ok(recv),
+            ("rev", 0, LT::List(_)) => Ok(Tx { pre: recv.pre, term: format!("(List.reverse {})", recv.term), ty: recv.ty }),
+            ("enumerate", 0, LT::List(t)) => Ok(Tx {
+                pre: recv.pre,
+                term: format!("(Rs.enumerate {})", recv.term),
+                ty: LT::List(Box::new(LT::Tup(vec![LT::I("usize"), *t]))),
+            }),
             ("is_none", 0, LT::Opt(_)) => Ok(Tx { pre: recv.pre, term: format!("({}).isNone", recv.term), ty: LT::Bool }),
             ("is_some", 0, LT::Opt(_)) => Ok(Tx { pre: recv.pre, term: format!("({}).isSome", recv.term), ty: LT::Bool }),
             ("has_catch_block", 0, LT::Handler) if self.callees.contains_key("handler::has_catch_block") => {
